@@ -11,7 +11,7 @@ Transcribed from `vivarium/library/dict_utils.py` (`deep_merge`: an entry of `me
 does not meet a dictionary on the other side is stored **by reference**; `deep_copy_internal`:
 new dictionaries, same leaves), `vivarium/core/process.py` (`assoc_in`: new dictionaries along
 the path, `value` itself at the end) and `vivarium/core/composer.py` (`Composite.merge`, in the
-order the statements run).  Recursion over the object graph is fuel-bounded (a cyclic dictionary
+order the statements run; loose parts are copied too since fix 54c1ca0).  Recursion over the object graph is fuel-bounded (a cyclic dictionary
 makes the Python recurse without end); `none` = out of fuel or a Python exception.
 -/
 namespace Viv
@@ -190,6 +190,18 @@ def looseOrEmpty : Heap → List (Option Addr) → List Addr × Heap
     let rs := looseOrEmpty r.2 rest
     (r.1 :: rs.1, rs.2)
 
+/-- `deep_merge(merge_x, deep_copy_internal(x))` for every part: each loose part is copied
+right before it is merged in (fix 54c1ca0), so `merge_x` never holds a dict object of the caller -/
+def copyMergePhase (fuel : Nat) : Heap → List Addr → List Addr → Option Heap
+  | h, mx :: mxs, l :: ls =>
+    match copyH fuel h (.ref l) with
+    | some (.ref c, h1) =>
+      match mergeH fuel h1 mx c with
+      | some h2 => copyMergePhase fuel h2 mxs ls
+      | none => none
+    | _ => none
+  | h, _, _ => some h
+
 /-- `merge` once the merged-in composite's part dictionaries `ol` are known -/
 def mergeCompCore (fuel : Nat) (h : Heap) (self : HComp) (ol : List Addr)
     (loose : List (Option Addr)) (path : List String) : Option Heap :=
@@ -198,7 +210,7 @@ def mergeCompCore (fuel : Nat) (h : Heap) (self : HComp) (ol : List Addr)
   match copyPhase fuel mx.2 mx.1 ol with
   | none => none
   | some h1 =>
-    match mergePhase fuel h1 mx.1 l.1 with
+    match copyMergePhase fuel h1 mx.1 l.1 with
     | none => none
     | some h2 =>
       match nestPhase path h2 mx.1 with
@@ -264,38 +276,61 @@ def dictAddrs : Nat → Heap → List String → HVal → List (List String × A
 
 /-! ## Merge sequences over a pool of composites -/
 
-/-- `pool[target].merge(pool[other], <loose parts given as new dictionaries>, path)` -/
+/-- where a loose part of a merge comes from -/
+inductive LooseSrc where
+  | absent                              -- not given (or given empty)
+  | fresh (v : Val)                      -- a new dictionary tree built for the call
+  | part (comp : Nat) (idx : Nat)        -- `pool[comp]`'s own part dictionary, passed as is
+
+/-- `pool[target].merge(pool[other], <loose parts>, path)` -/
 structure MergeOp where
   target : Nat
   other : Option Nat
-  loose : List (Option Val)
+  loose : List LooseSrc
   path : List String
 
-/-- allocate the loose parts that are given (each a new dictionary tree) -/
-def reifyLoose (leaf : Val → String) : Heap → List (Option Val) → List (Option Addr) × Heap
-  | h, [] => ([], h)
-  | h, none :: rest =>
-    let rs := reifyLoose leaf h rest
-    (none :: rs.1, rs.2)
-  | h, some v :: rest =>
+/-- resolve the loose parts: new trees are allocated, parts of pool composites are looked up;
+`none` (outer) when a named composite/part does not exist -/
+def resolveLoose (leaf : Val → String) (pool : List HComp) :
+    Heap → List LooseSrc → Option (List (Option Addr) × Heap)
+  | h, [] => some ([], h)
+  | h, .absent :: rest =>
+    match resolveLoose leaf pool h rest with
+    | some (rs, h') => some (none :: rs, h')
+    | none => none
+  | h, .fresh v :: rest =>
     let r := reifyH leaf h v
-    let rs := reifyLoose leaf r.2 rest
-    ((match r.1 with
-      | .ref a => some a
-      | .atom _ => none) :: rs.1, rs.2)
+    match resolveLoose leaf pool r.2 rest with
+    | some (rs, h') =>
+      some ((match r.1 with
+        | .ref a => some a
+        | .atom _ => none) :: rs, h')
+    | none => none
+  | h, .part ci pi :: rest =>
+    match pool[ci]? with
+    | none => none
+    | some c =>
+      match c[pi]? with
+      | none => none
+      | some a =>
+        match resolveLoose leaf pool h rest with
+        | some (rs, h') => some (some a :: rs, h')
+        | none => none
 
 def runOp (leaf : Val → String) (fuel : Nat) (pool : List HComp) (h : Heap) (op : MergeOp) :
     Option Heap :=
   match pool[op.target]? with
   | none => none
   | some self =>
-    let l := reifyLoose leaf h op.loose
-    match op.other with
-    | none => mergeCompH fuel l.2 self none l.1 op.path
-    | some j =>
-      match pool[j]? with
-      | none => none
-      | some o => mergeCompH fuel l.2 self (some o) l.1 op.path
+    match resolveLoose leaf pool h op.loose with
+    | none => none
+    | some l =>
+      match op.other with
+      | none => mergeCompH fuel l.2 self none l.1 op.path
+      | some j =>
+        match pool[j]? with
+        | none => none
+        | some o => mergeCompH fuel l.2 self (some o) l.1 op.path
 
 def runOps (leaf : Val → String) (fuel : Nat) (pool : List HComp) : Heap → List MergeOp → Option Heap
   | h, [] => some h
